@@ -103,6 +103,13 @@ def judge_message(ctx, t, a, tm):
         ctx.fail('eval(repr(m)) == m', f'repr-raised:{t}', case, f'{type(exc).__name__}: {exc}')
 
 
+def safe_repr(obj, n=300):
+    try:
+        return repr(obj)[:n]
+    except Exception as exc:
+        return f'<repr raised {type(exc).__name__}: {exc}>'
+
+
 def judge_repr(ctx, obj, clause, key, case):
     try:
         r = repr(obj)
@@ -254,6 +261,11 @@ def meta_objects(rng, k):
         m.time = rng.choice(TIMES)
         out.append(m)
     out.append(MetaMessage('text', text='quote\' " \\ \n\t\x00\xff€', time=0.5))
+    for txt in ('{Intro}', 'verse {}', '{0}', 'a } b', '{{chorus}}', '%s %d', '{', '\\{x\\}'):
+        if rng.random() < 0.5:
+            out.append(MetaMessage(rng.choice(('lyrics', 'marker', 'text', 'copyright')), text=txt))
+        else:
+            out.append(MetaMessage(rng.choice(('track_name', 'instrument_name', 'device_name')), name=txt, time=1))
     out.append(UnknownMetaMessage(0x60, time=3))
     out.append(UnknownMetaMessage(0x7E, (1, 2, 255), time=-0.0))
     return out
@@ -282,8 +294,8 @@ def run(ctx):
     for j in range(nm):
         for m in meta_objects(rng, 6):
             judge_repr(ctx, m, 'eval(repr(meta)) == meta', f'meta-repr:{m.type}',
-                       lambda: {'kind': 'meta', 'repr': repr(m)[:200]})
-            ctx.nontrivial(('meta', repr(m)))
+                       lambda: {'kind': 'meta', 'repr': safe_repr(m, 200)})
+            ctx.nontrivial(('meta', safe_repr(m)))
             n += 1
         for ln in (0, 1, 1, 2, 3, rng.randrange(4, 12)):
             evs = [genfile.rand_channel_event(rng, None, True) if rng.random() < 0.6 else
@@ -294,16 +306,20 @@ def run(ctx):
                 if rng.random() < 0.3:
                     m.time = rng.choice(TIMES)
             judge_repr(ctx, tr, 'eval(repr(track)) == track', f'track-repr:len{min(ln, 2)}',
-                       lambda: {'kind': 'track', 'len': ln, 'repr': repr(tr)[:300]})
-            ctx.nontrivial(('track', repr(tr)))
+                       lambda: {'kind': 'track', 'len': ln, 'repr': safe_repr(tr)})
+            ctx.nontrivial(('track', safe_repr(tr)))
             n += 1
         fmt, div, tracks = genfile.rand_file_events(rng, ('end', 'absent'), small=True, nmax=6)
         mid = genfile.midifile_of(fmt, div, tracks)
         if rng.random() < 0.3:
             mid.tracks.append(MidiTrack([Message('note_on', time=1.5)]))
+        if rng.random() < 0.5:
+            mid.tracks.append(MidiTrack([MetaMessage('track_name', name=rng.choice(('{Intro}', 'verse {}', '{0}', 'a } b',
+                                                                                     '{{chorus}}', '%(x)s'))),
+                                         MetaMessage('lyrics', text='la {la}', time=3)]))
         judge_repr(ctx, mid, 'eval(repr(file)) == file', f'file-repr:tracks{min(len(mid.tracks), 2)}',
-                   lambda: {'kind': 'file', 'repr': repr(mid)[:300]})
-        ctx.nontrivial(('file', repr(mid)))
+                   lambda: {'kind': 'file', 'repr': safe_repr(mid)})
+        ctx.nontrivial(('file', safe_repr(mid)))
         n += 1
     # invalid text classes
     if ctx.shard == 0:
@@ -334,6 +350,10 @@ def run(ctx):
         seed = f'{ctx.seed}:{ctx.shard}:s{j}'
         stream_case(ctx, seed)
         ctx.nontrivial(('stream', seed))
+        n += 1
+    if ctx.shard == 2 % ctx.nshards:
+        from .. import customspec
+        customspec.scenario(ctx, 'eval(repr(file)) == file', 'eval(repr(meta)) == meta', 'eval(repr(meta)) == meta')
         n += 1
     ctx.count('cases', n)
 
